@@ -58,6 +58,7 @@ type FuncContract struct {
 	LoopAssume map[int][]*Clause // hypotheses assumed at the loop head (composition hypotheses)
 	LoopStep map[int][]*Clause // relations between loop head and back edge of one iteration
 	Asserts  []*Clause
+	Promises []*Clause
 	NoInv    map[string]bool // invariants this function opts out of
 	NoPanic  bool            // default true; `maypanic` sets false
 	MayPanic bool
@@ -204,7 +205,7 @@ func stripComment(s string) string {
 	return s
 }
 
-var kwRe = regexp.MustCompile(`^\s*(group|func|extern|slot|requires|ensures|modifies|invariant|history|loop|ghostinit|ghost|pure|lemma|axiom|const|global|assert|mode|maypanic|noinv|use|callslot|trusted|bounded|pkg|end|implements|macro)\b`)
+var kwRe = regexp.MustCompile(`^\s*(group|func|extern|slot|requires|ensures|modifies|invariant|history|loop|ghostinit|ghost|pure|lemma|axiom|const|global|assert|mode|maypanic|noinv|use|callslot|trusted|bounded|pkg|end|implements|macro|promise)\b`)
 
 var labelRe = regexp.MustCompile(`^\s*([A-Za-z_][A-Za-z0-9_]*)\s*:\s*(.*)$`)
 var propsRe = regexp.MustCompile(`^\s*\[([A-Z0-9, ]+)\]\s*(.*)$`)
@@ -426,6 +427,31 @@ func (c *Contracts) LoadFile(path string) error {
 				props = cur.mergeProps
 			}
 			cur.Asserts = append(cur.Asserts, &Clause{Kind: "assert", Label: label, Props: props, Expr: e, Src: r, Where: l.where, At: at})
+		case "promise":
+			// promise [props] label: at <chan>: expr  -- holds at every send on the channel (checked in the
+			// goroutines started by this function), assumed after every receive from it in this function
+			if cur == nil {
+				return fail(l, "promise outside func")
+			}
+			{
+				props, r := splitProps(rest)
+				label, r := splitLabel(r)
+				if !strings.HasPrefix(r, "at ") {
+					return fail(l, "promise label: at <chan>: expr")
+				}
+				i := strings.Index(r, ":")
+				at := strings.TrimSpace(r[3:i])
+				r = r[i+1:]
+				e, err := ParseCExpr(r)
+				if err != nil {
+					return fail(l, "%v", err)
+				}
+				if props == nil {
+					props = cur.mergeProps
+				}
+				cur.Promises = append(cur.Promises, &Clause{Kind: "promise", Label: label, Props: props, Expr: e, Src: r, Where: l.where, At: at})
+				c.Assumptions = append(c.Assumptions, "channel promise "+label+" on "+at+": assumed after receive, discharged at every send by the started goroutines (rely/guarantee; needs the hand-off discipline) @ "+l.where)
+			}
 		case "modifies":
 			if cur == nil {
 				return fail(l, "modifies outside func")
